@@ -19,7 +19,8 @@ func IsTimeout(err error) bool {
 	if t {
 		return t
 	}
-	if e, ok := err.(net.Error); ok {
+	var e net.Error
+	if errors.As(err, &e) {
 		return e.Timeout()
 	}
 	return false
